@@ -535,6 +535,31 @@ fn jobs(tier: Tier) -> Vec<C04Job> {
             }
         }
     }
+    // Directed (both tiers): two flushers whose blocks interleave in sequence order so that the block with the
+    // higher id ends with a *lower* sequence than another block — what recovery restores the counter from matters.
+    for woi in [true, false] {
+        let mut cfg = HybCfg::small(woi, true);
+        cfg.mem_capacity = 1;
+        cfg.flushers = 2;
+        cfg.buffer_pool_size = 128 * 1024;
+        let i = |k: u64| HOp::Ins { k, sz: 100, loc: Loc::Default };
+        for prog in [
+            vec![i(1), i(2), i(1), i(1), HOp::Fill { n: 1 }, HOp::Wait],
+            vec![i(2), i(1), i(2), i(2), HOp::Fill { n: 1 }, HOp::Wait],
+            vec![i(1), HOp::Fill { n: 1 }, i(2), HOp::Fill { n: 1 }, i(1), HOp::Fill { n: 1 }, i(1), HOp::Fill { n: 1 }, HOp::Wait],
+        ] {
+            v.push(C04Job {
+                cfg: cfg.clone(),
+                prog,
+                policy: BasePolicy::Eager,
+                bound: 0,
+                seconds: vec![
+                    vec![i(1), HOp::Fill { n: 1 }, HOp::Wait],
+                    vec![i(2), HOp::Fill { n: 1 }, HOp::Wait],
+                ],
+            });
+        }
+    }
     v
 }
 
